@@ -1,7 +1,10 @@
 """C20  Calls are side-effect free and total on their documented domain."""
 import copy
 import importlib
+import ast
+import ast
 import inspect
+import os
 import math
 import re
 
@@ -43,6 +46,37 @@ def g_frames(tier):
             continue
         bad = [(l, what, ln) for (l, what, ln) in fi.writes if l != "self"]
         yield ((key, "writes only to objects created in the call (or its own receiver)"), not bad, bad[:3])
+
+
+@P.ground_check("returns/same-arity-on-every-path", functions=["pymeeus.*:* (every return statement)"])
+def g_returns(tier):
+    """documented type and arity: within one function the literal return shapes agree -- tuple displays all of one length, and no
+    tuple display next to a bare constant (a special case that forgets the second component)"""
+    n = 0
+    for fn in sorted(os.listdir(os.path.join(_REPO, "pymeeus"))):
+        if not fn.endswith(".py"):
+            continue
+        tree = ast.parse(open(os.path.join(_REPO, "pymeeus", fn)).read())
+        for node in ast.walk(tree):
+            if not isinstance(node, ast.FunctionDef):
+                continue
+            inner = {id(r) for sub in ast.walk(node) if isinstance(sub, (ast.FunctionDef, ast.Lambda)) and sub is not node
+                     for r in ast.walk(sub) if isinstance(r, ast.Return)}
+            shapes = set()
+            for r in ast.walk(node):
+                if isinstance(r, ast.Return) and id(r) not in inner and r.value is not None:
+                    v = r.value
+                    if isinstance(v, ast.Tuple):
+                        shapes.add(("tuple", len(v.elts)))
+                    elif isinstance(v, ast.Constant) and v.value is not None:
+                        shapes.add(("constant", type(v.value).__name__))
+                    elif isinstance(v, ast.UnaryOp) and isinstance(v.operand, ast.Constant):
+                        shapes.add(("constant", type(v.operand.value).__name__))
+            tuples = {x for x in shapes if x[0] == "tuple"}
+            consts = {x for x in shapes if x[0] == "constant"}
+            n += 1
+            yield ((fn[:-3], node.name, node.lineno), not (len(tuples) > 1 or (tuples and consts)), sorted(shapes))
+    yield ("functions examined", n > 300, n)
 
 
 @P.ground_check("exceptions/raise-sites", functions=["pymeeus.*:* (every raise statement)"])
@@ -187,7 +221,9 @@ class Gen(object):
             from pymeeus.Earth import WGS84
             return WGS84
         if "list" in t and "angle" in t:
-            return [self.angle(pname) for _ in range(5)]
+            # the length (odd, even) and the container (list, tuple) change from one generated call to the next
+            vals = [self.angle(pname) for _ in range(getattr(self, "list_len", 5))]
+            return tuple(vals) if getattr(self, "as_tuple", False) and "tuple" in t else vals
         if "angle" in t and "int" not in t and "float" not in t:
             return self.angle(pname)
         if t.startswith("bool"):
@@ -260,6 +296,7 @@ def b_api(rng, tier):
     gen = Gen(rng)
     g0 = globals_snapshot()
     generated = skipped = 0
+    shapes_seen = {}
     for qual, f, cls in public_callables():
         if qual in SKIP:
             continue
@@ -274,6 +311,7 @@ def b_api(rng, tier):
             continue
         is_method = cls is not None
         for rep in range(reps):
+            gen.list_len, gen.as_tuple = ((5, False), (4, False), (6, True), (3, True))[rep % 4]
             args = []
             ok_gen = True
             for p in params[1:] if is_method else params:
@@ -285,6 +323,12 @@ def b_api(rng, tier):
             if not ok_gen:
                 skipped += 1 if rep == 0 else 0
                 break
+            if rep == reps - 1 and reps > 1:
+                # coincident arguments: parameters that differ only by a trailing 1 / 2 get the same value
+                names = [p.name for p in (params[1:] if is_method else params)]
+                for i1, nm in enumerate(names):
+                    if nm.endswith("1") and nm[:-1] + "2" in names:
+                        args[names.index(nm[:-1] + "2")] = args[i1]
             if is_method:
                 try:
                     if cls.__name__ == "Angle":
@@ -334,6 +378,9 @@ def b_api(rng, tier):
                       problems.append("argument changed by the call")
                   if exc is not None and not isinstance(exc, (ValueError, ZeroDivisionError)):
                       problems.append("well-typed arguments raised %s: %s" % (type(exc).__name__, exc))
+                  if exc is None:
+                      # (boolean flags select documented alternative forms of the result: compared per flag setting)
+                      shapes_seen.setdefault((qual, tuple(a for a in call_args if isinstance(a, bool))), set()).add(_shape(r1))
                   if exc is None and not mutator:
                       try:
                           r2 = f(*call_args)
@@ -373,10 +420,23 @@ def b_api(rng, tier):
                         res = "raised %s" % type(e).__name__
                     yield ((qual, "ill-typed", p.name, type(badv).__name__), res != "raised AttributeError" and not res.startswith("raised") or res == "ok",
                            res, False)
+    for qual_, shp in sorted(shapes_seen.items()):
+        yield ((qual_, "same type and arity of the result on every call"), len(shp) <= 1, sorted(shp), False)
     g1 = globals_snapshot()
     changed = [k for k in g0 if g0[k] != g1.get(k)]
     yield (("module globals unchanged after the whole sweep",), not changed, changed[:5])
     yield (("callables with generated arguments", generated, "not generated", skipped), generated >= 120, None)
+
+
+def _shape(v):
+    """type and arity of a result: ('tuple', n) / type name; None components are kept apart (documented 'no value' triples)"""
+    if isinstance(v, tuple):
+        return "tuple/%d" % len(v)
+    if isinstance(v, bool):
+        return "bool"
+    if isinstance(v, (int, float)):
+        return "number"
+    return type(v).__name__
 
 
 def _numbers(v):
